@@ -70,8 +70,8 @@ static std::set<Int> sym_set(int L, const std::string &name, std::vector<z3::exp
 }
 
 static const char *OPS[] = {"unit-ctor", "set-ctor", "copy-ctor", "move-ctor", "plus", "plus-assign", "dot-vector", "dot-set",
-        "copy-assign", "move-assign", "clear", "self-copy-assign", "self-plus-assign"};
-static const int NOPS = 13;
+        "copy-assign", "move-assign", "clear", "self-copy-assign", "self-plus-assign", "add"};
+static const int NOPS = 13; // "add" (op 13) is only run on request (C07): it is never called inside the library
 
 static void body(const symx::Case &c, const std::string &line) {
     symx::Engine *e = symx::E();
@@ -92,13 +92,14 @@ static void body(const symx::Case &c, const std::string &line) {
     for (int st = 0; st < steps; st++) {
         int op = c.count("op") && st == 0 ? atoi(c.at("op").c_str()) : symx::choose(NOPS, "op");
         // operands are chosen only where the operation uses them
-        static const int uses_t[] = {1, 1, 1, 1, 1, 1, 0, 0, 1, 1, 1, 1, 1};
-        static const int uses_a[] = {0, 0, 1, 1, 1, 1, 1, 1, 1, 1, 0, 0, 0};
-        static const int uses_b[] = {0, 0, 0, 0, 1, 0, 1, 0, 0, 0, 0, 0, 0};
+        static const int uses_t[] = {1, 1, 1, 1, 1, 1, 0, 0, 1, 1, 1, 1, 1, 1};
+        static const int uses_a[] = {0, 0, 1, 1, 1, 1, 1, 1, 1, 1, 0, 0, 0, 0};
+        static const int uses_b[] = {0, 0, 0, 0, 1, 0, 1, 0, 0, 0, 0, 0, 0, 0};
         int t = uses_t[op] ? symx::choose(NREG, "t") : 0, a = uses_a[op] ? symx::choose(NREG, "a") : 0,
             b = uses_b[op] ? symx::choose(NREG, "b") : 0;
         std::string name = std::string(OPS[op]) + "(t=" + std::to_string(t) + ",a=" + std::to_string(a) + ",b=" + std::to_string(b) + ")";
         hist += name + ";";
+        symx::crumb(g_script + " ## next: " + name + " ## " + symx::model_json());
         switch (op) {
         case 0: {
             Int x = Int::variable("u" + std::to_string(st));
@@ -197,6 +198,19 @@ static void body(const symx::Case &c, const std::string &line) {
             g_script += "selfassign " + std::to_string(t) + ";";
             Vec &self = S.reg[t];
             S.reg[t] = self;
+            break;
+        }
+        case 13: {
+            // SpVecGF2::add(pos): documented to append a position not smaller than the last one
+            Int x = Int::variable("add" + std::to_string(st));
+            auto ent = entries_of(S.reg[t]);
+            symx::assume(x.e >= 0);
+            if (!ent.empty()) symx::assume(x.e > ent.back());
+            symx::resolve_model();
+            g_script += "add " + std::to_string(t) + " add" + std::to_string(st) + ";";
+            symx::crumb(g_script + " ## " + symx::model_json());
+            S.reg[t].add(x);
+            S.dense[t].push_back(x.e);
             break;
         }
         case 12: {
